@@ -160,6 +160,25 @@ def explore(ctx):
         ctx.evaluations += 2
         ctx.count('checksum-colliding-contents')
         oracle(ctx, on, off, o1, o2, mode='each')
+    # a replay under --max-improvement: the pass shrinks the file in steps that each respect the limit but together exceed
+    # it; the contents come back (a pass that undoes the reduction) and meet the same pass again
+    for maximp in (1, 2, 3):
+        for nn in (1, 3):
+            for body in ('aaaab', 'xaayaaz'):
+                sc = {'files': [('f0.c', body)], 'rules': [([], 0)],
+                      'passes': [{'key': 1, 'ops': [('delch', 'a')], 'aos': 0, 'maxt': None, 'newfix': None},
+                                 {'key': 2, 'ops': [('set', body)], 'aos': 1, 'maxt': None, 'newfix': None},
+                                 {'key': 1, 'ops': [('delch', 'a')], 'aos': 0, 'maxt': None, 'newfix': None}],
+                      'cfg': {'N': nn, 'no_cache': False, 'maximp': maximp}, 'sched': [0] * 40}
+                on = dict(sc, cfg=dict(sc['cfg'], no_cache=False))
+                off = dict(sc, cfg=dict(sc['cfg'], no_cache=True))
+                o1 = driver.run_scenario(on, ctx.tmp)
+                o2 = driver.run_scenario(off, ctx.tmp)
+                ctx.evaluations += 2
+                ctx.count('replay-under-max-improvement')
+                oracle(ctx, on, off, o1, o2, mode='each')
+                if not (o1.diverged or o2.diverged):
+                    each.append((driver.coq_scenario(on, o1.perm), o1.out, on))
     ctx.sample({'scenario': {k: red[0][2][k] for k in ('files', 'group', 'rules', 'cfg')}, 'impl_output': red[0][1][:40]})
     correspond(ctx, 'c10', each, red)
 
